@@ -234,6 +234,10 @@ def _lit(d, desc, t, depth, ctx, nullable, kinds, risky, in_obj):
         kw = [v for v in vals if keyword.iskeyword(v)]
         plain = [v for v in vals if not keyword.iskeyword(v)]
         v = d.choice(vals)
+        soft = [x for x in vals if keyword.issoftkeyword(x)]
+        if soft and d.bool(0.5):
+            v = d.choice(soft)  # `match`, `case`, `type`: valid member names, so the default must name them unchanged
+            kinds.add("soft_keyword_enum")
         if keyword.iskeyword(v):
             if risky and d.enabled(f"{ctx}.keyword_enum"):
                 kinds.add("keyword_enum")
